@@ -237,4 +237,40 @@ theorem asm_sound_partial (hd : IsDevice d v W) (P : Parser) (s : Str) (pc : Int
   obtain ⟨oc, od, sh, x, h1, h2, h3, h4⟩ := C07.asm_sound_partial hd P s pc bs h
   exact ⟨oc, od, sh, x, by rw [splitG_eq]; exact h1, h2, h3, h4⟩
 
+/-- `asm_sound` ("never mis-assembles", every text, FULL) for the GENERATED assembler: for every device, every
+parser of the device's address width (`P.width = 2 W`) whose label values are in range (`P.WF`) and whose
+label names contain no `(` (`LabelsNoParen P`), every text `s` and every address `pc`: if the generated
+`assemble` returns bytes then the token sequence of `s` denotes a statement `(m, sh, w)` of the documented
+syntax (`Spec.Asm.parse`), the operand word `w` has the value `x`, and the bytes are exactly the documented
+encoding of `(m, sh, x)` at `pc`.  (`C07.asm_sound` through the unconditional `AsmGenEq.assemble_eq`.) -/
+theorem asm_sound (hd : IsDevice d v W) (P : Parser) (hPw : P.width = 2 * W) (hwf : P.WF)
+    (hlab : LabelsNoParen P) (s : Str) (pc : Int) (bs : List Int) (h : assembleG d P s pc = .ok bs) :
+    ∃ m sh w x, Py65.Spec.Asm.parse s = some (m, sh, w) ∧ value P sh w = .ok x ∧
+      encode v W ⟨m, sh, x⟩ pc = .ok bs := by
+  rw [assembleG_eq] at h
+  exact C07.asm_sound hd P hPw hwf hlab s pc bs h
+
+/-- ... and in the header's wording: the bytes are a documented encoding of what the text denotes. -/
+theorem asm_sound_documented (hd : IsDevice d v W) (P : Parser) (hPw : P.width = 2 * W) (hwf : P.WF)
+    (hlab : LabelsNoParen P) (s : Str) (pc : Int) (bs : List Int) (h : assembleG d P s pc = .ok bs) :
+    ∃ m sh w x, Py65.Spec.Asm.parse s = some (m, sh, w) ∧ value P sh w = .ok x ∧
+      Documented v W ⟨m, sh, x⟩ pc bs := by
+  rw [assembleG_eq] at h
+  exact C07.asm_sound_documented hd P hPw hwf hlab s pc bs h
+
+/-- non-vacuity of `asm_sound`: the hypotheses hold of a parser with labels, and the GENERATED assembler does
+return bytes for a text with a label, blanks and an index (so the conclusion is about something). -/
+example :
+    (⟨16, 16, [("tbl".toList, 0x10), ("io.port".toList, 0xfe)]⟩ : Parser).width = 2 * 8 ∧
+    (⟨16, 16, [("tbl".toList, 0x10), ("io.port".toList, 0xfe)]⟩ : Parser).WF ∧
+    LabelsNoParen ⟨16, 16, [("tbl".toList, 0x10), ("io.port".toList, 0xfe)]⟩ ∧
+    assembleG dev6502 ⟨16, 16, [("tbl".toList, 0x10), ("io.port".toList, 0xfe)]⟩ " lda\t( tbl ) , y ".toList 7
+      = .ok [0xb1, 0x10] ∧
+    assembleG dev6502 ⟨16, 16, [("tbl".toList, 0x10), ("io.port".toList, 0xfe)]⟩ "STA io.port".toList 0
+      = .ok [0x85, 0xfe] :=
+  ⟨by decide,
+   (Py65.Proofs.Num.init_wf 16 16 [("tbl".toList, 0x10), ("io.port".toList, 0xfe)]
+     ⟨16, 16, [("tbl".toList, 0x10), ("io.port".toList, 0xfe)]⟩ (by decide +kernel)).1,
+   by decide, by decide +kernel, by decide +kernel⟩
+
 end Py65.Props.C07g
